@@ -97,6 +97,9 @@ def points(c, rng, lo, hi, extra):
         # inside an interval, at least 0.05 from its ends (intervals are >= 0.3 long)
         j = rng.integers(0, len(k) - 1, c['m'])
         xi = k[j] + 0.05 + rng.uniform(0, 1, c['m']) * (k[j + 1] - k[j] - 0.1)
+        if c['seed'] % 3 == 0:
+            # ... and the end points of the knot range themselves (the spline is one polynomial piece on either side of them)
+            xi[0] = k[0] if c['seed'] % 2 == 0 else k[-1]
     x[c['index'], :] = xi
     if c.get('point_type', 'float').startswith('int'):
         # integer-valued points (handed over with an integer dtype / as python ints); inside every family's domain
